@@ -552,10 +552,10 @@ def gen_wrappers(repo, out):
             return "light_c"
         if k == "path" and len(e[1]) == 1 and e[1][0] in env:
             return e[1][0]
-        if k == "field" and e[1][0] == "path" and e[1][1][0] in ("spdc1", "spdc2") and e[2] in ("signal_waist_position", "idler_waist_position"):
+        if k == "field" and e[1][0] == "path" and e[1][1][0] in ("spdc1", "spdc2", "spdc") and e[2] in ("signal_waist_position", "idler_waist_position"):
             return f"({'sig_wp' if e[2].startswith('signal') else 'idl_wp'} {e[1][1][0]})"
         if (k == "mcall" and e[2] == "average_transit_time" and e[1][0] == "field" and e[1][1][0] == "path"
-                and e[1][1][1][0] in ("spdc1", "spdc2") and e[1][2] in ("signal", "idler")):
+                and e[1][1][1][0] in ("spdc1", "spdc2", "spdc") and e[1][2] in ("signal", "idler")):
             who = e[1][1][1][0]
             if e[3] != [("unary", "&", ("field", ("path", [who]), "crystal_setup")), ("unary", "&", ("field", ("path", [who]), "pp"))]:
                 c.fail("average_transit_time is not called with the same setup's crystal_setup and pp")
@@ -582,6 +582,21 @@ def gen_wrappers(repo, out):
     body.append("(* hom_two_source_time_delays *)\n"
                 "Definition src_ts_time_delays (spdc1 spdc2 : ts_source) : R * R * R :=\n"
                 f"  (({chans['ss']},\n    {chans['ii']}),\n   {chans['si']}).\n")
+
+    # ---- hom_time_delay (single source): let fudge = ..; let signal_time = ..; let idler_time = ..; idler_time - signal_time + fudge
+    it = find_fn(items, "hom_time_delay", path)
+    c = Ctx(path, it)
+    out.span("spdc::hom::hom_time_delay", it)
+    if [p_[0][1] for p_ in it.params] != ["spdc"]:
+        c.fail("hom_time_delay parameters changed")
+    env, lets = set(), []
+    for t_ in it.body[1]:
+        if not (t_[0] == "let" and t_[1][0] == "pbind"):
+            c.fail("hom_time_delay: unsupported statement")
+        lets.append(f"let {t_[1][1]} := {texpr(t_[3], env)} in")
+        env.add(t_[1][1])
+    body.append("(* hom_time_delay *)\n"
+                "Definition src_hom_time_delay (spdc : ts_source) : R :=\n  " + " ".join(lets) + " " + texpr(it.body[2], env) + ".\n")
 
     # ---- hom_two_source_visibilities: both branches
     it = find_fn(items, "hom_two_source_visibilities", path)
